@@ -219,10 +219,28 @@ func c11Tree(r *gen.Rand) (files map[string]string, links map[string]string, imp
 		files["linkedpkg/package.json"] = "{\"name\": \"linked\", \"main\": \"./m.js\"}"
 		files["linkedpkg/m.js"] = "module.exports = 1;\n"
 	}
+	extra := []string{}
+	if r.Chance(1, 3) {
+		// links inside links: a linked package (store layout) one of whose directories is itself a link into
+		// another place of the store, and a linked directory below a linked directory
+		links["node_modules/spkg"] = "../store/spkg"
+		links["store/spkg/lib"] = "../shared/lib"
+		links["store/shared/lib/deep"] = "../../far/deep"
+		files["store/spkg/package.json"] = "{\"name\": \"spkg\", \"main\": \"./lib/m.js\"}"
+		files["store/spkg/top.js"] = "module.exports = 1;\n"
+		files["store/shared/lib/m.js"] = "module.exports = 2;\n"
+		files["store/shared/lib/sub/index.js"] = "module.exports = 3;\n"
+		files["store/far/deep/d.js"] = "module.exports = 4;\n"
+		files["store/far/deep/package.json"] = "{\"main\": \"./d.js\"}"
+		extra = []string{"spkg", "spkg/top", "spkg/lib/m.js", "spkg/lib/m", "spkg/lib/sub", "spkg/lib/deep/d.js", "spkg/lib/deep", "../node_modules/spkg/lib/m.js", "../store/spkg/lib/deep/d"}
+	}
 	importers = []string{"src/index.js", "node_modules/app/index.js", root + "main.js"}
 	specs = []string{"dep", "dep/feature", "dep/features/x", "dep/features/x.js", "dep/features/special.js", "dep/internal/y", "dep/deep/q/x", "dep/a", "dep/a.js", "dep/lib/b.js", "dep/package.json", "dep/nope", "dep/src/y.js",
 		"#priv", "#feat/x", "#dep", "#own", "#missing", "app", "app/self", "other", "other/sub", "other/sub.js", "other/lib/main", "@scope/pkg", "@scope/pkg/sub", "@scope/pkg/r.cjs", "nomain", "linked",
 		"./rel", "./rel.js", "./dir", "./both", "./data.json", "../src/rel.js", "./missing", "dep/features/x?query"}
+	for i := 0; i < 3; i++ { // weight: as likely as the rest together would drown them
+		specs = append(specs, extra...)
+	}
 	return
 }
 
@@ -256,8 +274,9 @@ func esbuildResolve(dir string, importerRel string, spec string, kind string, wo
 	if in.Imports[0].External {
 		return "", "external"
 	}
-	p, _ := filepath.EvalSymlinks(filepath.Join(dir, in.Imports[0].Path))
-	return p, ""
+	// NOT passed through EvalSymlinks: without preserve-symlinks the path esbuild reports must already be
+	// the real path (dir is real), as Node's is; a half-resolved path (nested links) is a difference
+	return filepath.Join(dir, in.Imports[0].Path), ""
 }
 
 func c11RunCase(rep *Report, dir string, files, links map[string]string, importers, specs []string, r *gen.Rand, nq int, class string) {
@@ -320,7 +339,7 @@ func c11RunCase(rep *Report, dir string, files, links map[string]string, importe
 
 func init() {
 	searches["c11-resolve"] = func(r *gen.Rand, count int, workdir string, rep *Report) {
-		rep.Rule = "package trees generated from the package.json resolution grammar (exports/imports as string, array, nested condition objects in random key order, overlapping * patterns, invalid targets, null; nested + hoisted copies, scoped packages, self reference, symlinked package, packages without main, index files, type) and specifiers (bare, subpath, #imports, relative, query, percent-encoded) x {import, require}; Node itself (createRequire().resolve / import.meta.resolve) is the oracle; esbuild runs with platform=node, mainFields=[main], no extra conditions. non-trivial = Node resolved the specifier or rejected it because of an exports/imports map"
+		rep.Rule = "package trees generated from the package.json resolution grammar (exports/imports as string, array, nested condition objects in random key order, overlapping * patterns, invalid targets, null; nested + hoisted copies, scoped packages, self reference, symlinked package, links inside links (store layout; esbuild's reported path is compared unresolved with Node's real path), packages without main, index files, type) and specifiers (bare, subpath, #imports, relative, query, percent-encoded) x {import, require}; Node itself (createRequire().resolve / import.meta.resolve) is the oracle; esbuild runs with platform=node, mainFields=[main], no extra conditions. non-trivial = Node resolved the specifier or rejected it because of an exports/imports map"
 		perTree := 12
 		for done := 0; done < count; done += perTree {
 			gr := r.Fork()
